@@ -562,8 +562,8 @@ func InDomain(t *Ty, tag string, v reflect.Value) bool {
 		if Omitted(t, tag, v) {
 			return true
 		}
-		if y == 1 && tm.YearDay() == 1 && tm.Hour() == 0 && tm.Minute() == 0 && tm.Second() == 0 && tm.Nanosecond() == 0 {
-			return false // the zero instant in a location other than UTC: not the zero value, yet decodes to it
+		if y == 1 && tm.YearDay() == 1 && tm.Hour() == 0 && tm.Minute() == 0 && tm.Second() == 0 {
+			return false // not the zero value, yet decodes to it (the zero second in another location, or with nanoseconds)
 		}
 		inUTC := y >= 1950 && y < 2050
 		if implicit && p.TimeType != asn1.TagGeneralizedTime && !inUTC {
